@@ -326,8 +326,10 @@ type W3 struct {
 
 // NewW3 builds an issuer; its name key is drawn from the calling goroutine's
 // entropy stream, so the caller fixes it by choosing the stream label first.
-func NewW3(keyIdx int) *W3 {
-	k := RSAKeys()[keyIdx]
+func NewW3(keyIdx int) *W3 { return NewW3Key(RSAKeys()[keyIdx]) }
+
+// NewW3Key builds the type-3 world of a given token key.
+func NewW3Key(k *rsa.PrivateKey) *W3 {
 	is := type3.NewRateLimitedIssuer(k)
 	pb, err := util.MarshalTokenKeyPSSOID(is.TokenKey())
 	if err != nil {
@@ -360,6 +362,9 @@ type T3Args struct {
 	Nonce      []byte
 	Origin     string
 	AnonOrigin []byte
+	// Client, if set, is the client OBJECT to use (it must have been made from Secret): one client
+	// that talks to several issuers / origins in turn. Otherwise every request gets a fresh client.
+	Client *type3.RateLimitedClient
 }
 
 func (w *W3) Create(a T3Args) (type3.RateLimitedTokenRequestState, error) {
@@ -370,6 +375,9 @@ func (w *W3) Create(a T3Args) (type3.RateLimitedTokenRequestState, error) {
 	var ac argCopies
 	defer ac.done()
 	c := type3.NewRateLimitedClientFromSecret(ac.c(a.Secret))
+	if a.Client != nil {
+		c = *a.Client
+	}
 	return c.CreateTokenRequest(ac.c(a.Challenge), ac.c(a.Nonce), ac.c(a.Blind), ac.c(w.KeyID), w.ClientPub(), a.Origin, nk)
 }
 
